@@ -40,7 +40,7 @@ pub fn run(args: &[String]) {
         } else {
             let mass = gen_mass(&mut rng);
             let t = match rng.below(6) { 0 => 0.0, 1 => 1.0, 2 => *rng.pick(&[0.95, 0.9999, 0.5, 0.99]), _ => rng.below(1001) as f64 / 1000.0 };
-            let t2 = (t + rng.unit() * (1.0 - t)).min(1.0);
+            let t2 = if rng.chance(1, 8) { 1.0 } else { (t + rng.unit() * (1.0 - t)).min(1.0) };
             let a = guarded(|| poisson_approximate_n_peaks_of(mass, t));
             let b = guarded(|| poisson_approximate_n_peaks_of(mass, t2));
             println!("{}", json!({"id": id, "op": "npeaks", "mass": hexf(mass), "t": hexf(t), "t2": hexf(t2),
